@@ -108,6 +108,44 @@ def asm_stmts(c):
     return out
 
 
+def inst_stmts(c):
+    """`impl Assemble for dr::Instruction`, statement by statement, as a small program over the output buffer:
+    ('letStart',) `let start = result.len();`  ('pushOpcode',) `result.push(self.class.opcode as u32);`
+    ('optPush', field) `if let Some(r) = self.F { result.push(r); }`  ('eachOperand',) the operand loop
+    ('letEnd',) `let end = result.len() - start;`  ('patch', shift) `result[start] |= (end as u32) << 16;`
+    (`<<` is lexed as two `<` tokens). Any other statement is refused."""
+    out = []
+    while not c.eof():
+        if c.opt_kw("let"):
+            v = c.ident(); c.p("="); c.kw("result"); c.p("."); c.kw("len"); c.p("(", ")")
+            if v == "start":
+                c.p(";"); out.append(("letStart",))
+            elif v == "end":
+                c.p("-"); c.kw("start"); c.p(";"); out.append(("letEnd",))
+            else:
+                c.fail("unexpected binding")
+        elif c.opt_kw("if"):
+            c.kw("let", "Some"); c.p("("); v = c.ident(); c.p(")", "="); c.kw("self"); c.p("."); f = c.ident()
+            c.p("{"); c.kw("result"); c.p("."); c.kw("push"); c.p("(")
+            if c.ident() != v: c.fail("binder")
+            c.p(")", ";", "}")
+            out.append(("optPush", f))
+        elif c.opt_kw("for"):
+            v = c.ident(); c.kw("in"); c.p("&"); c.kw("self"); c.p("."); c.kw("operands"); c.p("{")
+            if c.ident() != v: c.fail("binder")
+            c.p("."); c.kw("assemble_into"); c.p("("); c.kw("result"); c.p(")", ";", "}")
+            out.append(("eachOperand",))
+        elif c.at_id("result") and c.at_p(".", 1):
+            c.seq("result . push ( self . class . opcode as u32 ) ;")
+            out.append(("pushOpcode",))
+        elif c.at_id("result") and c.at_p("[", 1):
+            c.seq("result [ start ] |= ( end as u32 ) < <"); sh = c.num(); c.p(";")
+            out.append(("patch", sh))
+        else:
+            c.fail("unexpected statement in Instruction::assemble_into")
+    return out
+
+
 def parse(constructs_text, assemble_text):
     f1, f2 = "rspirv/dr/constructs.rs", "rspirv/binary/assemble.rs"
     t1, t2 = tokenize(constructs_text, f1), tokenize(assemble_text, f2)
@@ -127,6 +165,10 @@ def parse(constructs_text, assemble_text):
         c, _ = find_fn(t2, f2, "assemble_into", after=j)
         c.item = f"impl Assemble for {ty}"
         R["asm_" + ty] = asm_stmts(c)
+    j = find_impl(t2, f2, "Assemble", "Instruction")
+    c, _ = find_fn(t2, f2, "assemble_into", after=j)
+    c.item = "impl Assemble for dr::Instruction"
+    R["asm_Instruction"] = inst_stmts(c)
     # header: result.extend([self.magic_number, self.version, self.generator, self.bound, self.reserved_word])
     j = find_impl(t2, f2, "Assemble", "ModuleHeader")
     c, _ = find_fn(t2, f2, "assemble_into", after=j)
